@@ -240,7 +240,16 @@ func sharedSlicesNotAppendedInPlace(c *Ctx, rule string, rels ...string) {
 						return true
 					})
 				}
+				// … or the base re-uses storage somebody else holds: a slice expression X[:k] over a parameter, a field, a
+				// package-level value or an element of one (directly, through a local, or handed in as a parameter) —
+				// the in-place filter `out := in[:0]` compacts the caller's slice, `append(cached[:0], …)` overwrites what
+				// earlier readers still hold
 				if shared == "" {
+					if why := reusedStorage(p, fd, base, 0, map[types.Object]bool{}); why != "" {
+						n++
+						key := fmt.Sprintf("%s|append(%s, …)|no-reuse-of-foreign-storage", funcKey(p, fd), types.ExprString(base))
+						c.viol(rule, key, c.pos(call.Pos()), fmt.Sprintf("%s appends into %s: the new elements overwrite the backing array of a slice that its owner (the caller, or readers that took it earlier) still uses", fd.Name.Name, why))
+					}
 					return true
 				}
 				n++
@@ -271,3 +280,105 @@ func recvObj(info *types.Info, fd *ast.FuncDecl) types.Object {
 }
 
 var _ = packages.NeedName
+
+// reusedStorage: e denotes a slice expression X[:k] (without an explicit capacity) whose operand is storage the
+// function does not own — a slice parameter, a field, a package-level variable, or an element of a map or slice of
+// those — directly, through locals, or through a parameter (then: at some call site). "" otherwise.
+func reusedStorage(p *packages.Package, fd *ast.FuncDecl, e ast.Expr, depth int, seen map[types.Object]bool) string {
+	info := p.TypesInfo
+	if depth > 4 || e == nil {
+		return ""
+	}
+	foreign := func(x ast.Expr) string {
+		x = ast.Unparen(x)
+		for {
+			switch r := x.(type) {
+			case *ast.IndexExpr:
+				x = ast.Unparen(r.X)
+				continue
+			case *ast.StarExpr:
+				x = ast.Unparen(r.X)
+				continue
+			}
+			break
+		}
+		switch r := x.(type) {
+		case *ast.SelectorExpr:
+			if sel, ok := info.Selections[r]; ok && sel.Kind() == types.FieldVal {
+				return "the field " + types.ExprString(r)
+			}
+		case *ast.Ident:
+			ob := info.ObjectOf(r)
+			if v, ok := ob.(*types.Var); ok {
+				if v.Parent() == p.Types.Scope() {
+					return "the package-level variable " + r.Name
+				}
+				for _, prm := range paramObjs(info, fd) {
+					if prm == ob {
+						return "the parameter " + r.Name
+					}
+				}
+			}
+		}
+		return ""
+	}
+	switch x := ast.Unparen(e).(type) {
+	case *ast.SliceExpr:
+		if x.Slice3 {
+			return ""
+		}
+		if what := foreign(x.X); what != "" {
+			return types.ExprString(x) + ", a re-slice of " + what
+		}
+		return reusedStorage(p, fd, x.X, depth+1, seen)
+	case *ast.Ident:
+		ob := info.ObjectOf(x)
+		if ob == nil || seen[ob] {
+			return ""
+		}
+		seen[ob] = true
+		for i, prm := range paramObjs(info, fd) {
+			if prm != ob {
+				continue
+			}
+			fobj := info.Defs[fd.Name]
+			for _, cfd := range allFuncDecls(p) {
+				if cfd.Body == nil {
+					continue
+				}
+				why := ""
+				ast.Inspect(cfd.Body, func(n ast.Node) bool {
+					if call, ok := n.(*ast.CallExpr); ok && i < len(call.Args) && why == "" {
+						if fn := calleeOf(info, call); fn != nil && types.Object(fn) == fobj {
+							if _, isSlice := ast.Unparen(call.Args[i]).(*ast.SliceExpr); isSlice {
+								why = reusedStorage(p, cfd, call.Args[i], depth+1, seen)
+							}
+						}
+					}
+					return true
+				})
+				if why != "" {
+					return why
+				}
+			}
+			return ""
+		}
+		why := ""
+		ast.Inspect(fd.Body, func(n ast.Node) bool {
+			as, ok := n.(*ast.AssignStmt)
+			if !ok || len(as.Lhs) != len(as.Rhs) {
+				return true
+			}
+			for i, l := range as.Lhs {
+				if lid, ok := l.(*ast.Ident); ok && info.ObjectOf(lid) == ob && why == "" {
+					if _, isSlice := ast.Unparen(as.Rhs[i]).(*ast.SliceExpr); isSlice {
+						why = reusedStorage(p, fd, as.Rhs[i], depth+1, seen)
+					}
+				}
+			}
+			return true
+		})
+		return why
+	}
+	return ""
+}
